@@ -592,6 +592,7 @@ func (s *PersistentSlabStorage) FastCommit(numWorkers int) error {
 			default:
 			}
 
+			verifYield("fc", id)
 			slab := s.deltas[id]
 			if slab == nil {
 				results <- &encodedSlabs{
@@ -726,6 +727,7 @@ func (s *PersistentSlabStorage) NondeterministicFastCommit(numWorkers int) error
 
 			id := job.slabID
 			slab := job.slab
+			verifYield("nfc", id)
 
 			if slab == nil {
 				results <- encodedSlab{
@@ -776,6 +778,8 @@ func (s *PersistentSlabStorage) NondeterministicFastCommit(numWorkers int) error
 	modifiedSlabIDs := slabIDsWithOwner[:modifiedSlabCount]
 
 	deletedSlabIDs := slabIDsWithOwner[len(slabIDsWithOwner)-deletedSlabCount:]
+	verifOrderSlabIDs(modifiedSlabIDs)
+	verifOrderSlabIDs(deletedSlabIDs)
 
 	if modifiedSlabCount == 0 && deletedSlabCount == 0 {
 		return nil
@@ -1131,6 +1135,7 @@ func (s *PersistentSlabStorage) BatchPreload(ids []SlabID, numWorkers int) error
 
 			id := slabData.slabID
 			data := slabData.data
+			verifYield("bp", id)
 
 			slab, err := DecodeSlab(id, data, s.cborDecMode, s.DecodeStorable, s.DecodeTypeInfo)
 			// err is already categorized by DecodeSlab().
